@@ -428,3 +428,156 @@ for _f2 in HIST_FORMATS:
                     "replay: the reference conversion runs in a fresh interpreter"],
            bound="an EARLIER whole conversion (any of %d formats x parameter type among the first %d of %r x default present/absent) followed by a LATER conversion into %s "
                  "(same type set): the later result equals the result obtained before the earlier conversion ran" % (len(HIST_FORMATS), _n + 1, HIST_TYPES, _f2))(_hist_conv(_f2))
+
+
+# ------------------------------------------------------------------------------- gen_routes: routes appended to an existing routes file
+import cdd.sqlalchemy.emit  # noqa: E402,F401  (import order: see C18 in DESIGN.md)
+import cdd.compound.openapi.gen_routes as _gr  # noqa: E402
+
+if os.environ.get("CHX_NO_INSTRUMENT") != "1":
+    SWAPPED += instrument_nd(_gr)
+_UP_ROOT = [None]
+_UP_N = [0]
+UP_MODEL = ('from sqlalchemy import Column, Integer, String\nfrom sqlalchemy.orm import declarative_base\n\nBase = declarative_base()\n\n\nclass Conf(Base):\n    """\n    A Conf.\n\n'
+            '    :cvar id: the key\n    :cvar title: the title\n    """\n\n    __tablename__ = "conf_tbl"\n\n    id = Column(Integer, doc="the key", primary_key=True)\n'
+            '    title = Column(String, doc="the title", default="t", nullable=False)\n')
+
+
+def _crud(m):
+    return ("C" if m & 1 else "") + ("R" if m & 2 else "") + ("D" if m & 4 else "")
+
+
+def _upsert(existing, wanted):
+    """a routes file that already holds the `existing` routes receives the `wanted` ones; returns the resulting file text"""
+    import atexit
+    import shutil
+    import tempfile
+
+    import cdd.sqlalchemy.emit  # noqa: F401  (import order)
+
+    if _UP_ROOT[0] is None:
+        _UP_ROOT[0] = tempfile.mkdtemp(prefix="chx_c10_")
+        atexit.register(shutil.rmtree, _UP_ROOT[0], True)
+        with open(os.path.join(_UP_ROOT[0], "models.py"), "wt") as f:
+            f.write(UP_MODEL)
+    _UP_N[0] += 1
+    routes_path = os.path.join(_UP_ROOT[0], "routes_%d.py" % _UP_N[0])
+    model_path = os.path.join(_UP_ROOT[0], "models.py")
+    try:
+        if existing:
+            routes, pk = _gr.gen_routes(app="rest_api", model_path=model_path, model_name="Conf", crud=_crud(existing), route="/api/conf")
+            _gr.upsert_routes(app="rest_api", routes=list(routes), routes_path=routes_path, route="/api/conf", primary_key=pk)
+        routes, pk = _gr.gen_routes(app="rest_api", model_path=model_path, model_name="Conf", crud=_crud(wanted), route="/api/conf")
+        _gr.upsert_routes(app="rest_api", routes=list(routes), routes_path=routes_path, route="/api/conf", primary_key=pk)
+        with open(routes_path, "rt") as f:
+            return f.read()
+    finally:
+        if os.path.exists(routes_path):
+            os.remove(routes_path)
+
+
+def nd_upsert_routes(existing, wanted, k0, k1, k2):
+    ND.reset((k0, k1, k2))
+    try:
+        a = _upsert(existing, wanted)
+    except Exception as e:
+        a = "raised %s" % type(e).__name__
+    ND.reset((), canonical=True)
+    try:
+        b = _upsert(existing, wanted)
+    except Exception as e:
+        b = "raised %s" % type(e).__name__
+    if a != b:
+        return "the routes file written by upsert_routes depends on set iteration order"
+    return ""
+
+
+def nd_upsert_routes_replay(existing, wanted, k0, k1, k2):
+    return hashseed_diag("from harness.c10 import _upsert\nprint(_upsert(%d, %d))" % (existing, wanted))
+
+
+for _ex in range(8):
+    ob("C10", "nd.upsert_routes.e%d" % _ex, {"existing": R(_ex, _ex), "wanted": R(1, 7), "k0": R(0, 5), "k1": R(0, 5), "k2": R(0, 1)}, T=900, tpath=120, replay=nd_upsert_routes_replay,
+       tier="quick" if _ex in (0, 1, 2, 4) else "thorough",
+       funcs=["cdd.compound.openapi.gen_routes.gen_routes", "cdd.compound.openapi.gen_routes.upsert_routes"], assumes=[ND_ASSUME],
+       bound="a routes file holding the routes %r of one model receives ANY non-empty requested subset of {create, read, destroy} (history of two upserts); the first three set "
+             "iterations permuted by the solver: the resulting file text is the same as under the canonical order" % (_crud(_ex) or "none yet",))(nd_upsert_routes)
+
+
+# ------------------------------------------------------------------------------- call history: ONE interface description handed to two emitters
+def _emit_only(fmt, ir):
+    """emit `ir` (the very object, no copy) in `fmt`; a comparable string"""
+    import cdd.argparse_function.emit
+    import cdd.class_.emit
+    import cdd.docstring.emit
+    import cdd.function.emit
+    import cdd.json_schema.emit
+    import cdd.pydantic.emit
+    import cdd.sqlalchemy.emit as SE
+
+    if fmt == "class":
+        return ast.dump(cdd.class_.emit.class_(ir, class_name="C", word_wrap=False))
+    if fmt == "pydantic":
+        return ast.dump(cdd.pydantic.emit.pydantic(ir, class_name="C", word_wrap=False))
+    if fmt == "function":
+        return ast.dump(cdd.function.emit.function(ir, function_name="f", function_type="static", word_wrap=False))
+    if fmt == "argparse":
+        return ast.dump(cdd.argparse_function.emit.argparse_function(ir, function_name="set_cli_args", word_wrap=False))
+    if fmt == "docstring":
+        return cdd.docstring.emit.docstring(ir, word_wrap=False)
+    if fmt == "json_schema":
+        return json.dumps(cdd.json_schema.emit.json_schema(ir), sort_keys=True, default=str)
+    if fmt == "sqlalchemy":
+        return ast.dump(SE.sqlalchemy(ir, emit_repr=False, class_name="Config", table_name="config_tbl", word_wrap=False))
+    if fmt == "sqlalchemy_table":
+        return ast.dump(SE.sqlalchemy_table(ir, name="config_tbl", word_wrap=False))
+    return ast.dump(SE.sqlalchemy_hybrid(ir, emit_repr=False, emit_create_from_attr=False, class_name="Config", table_name="config_tbl", word_wrap=False))
+
+
+SHARED_TYPES = ("int", "str", "Optional[str]", "Literal['a', 'b']", "dict", "Optional[int]", "bool", "float")
+
+
+def _shared_ir(t, dflt, with_pk):
+    from collections import OrderedDict
+
+    typ = _pick(SHARED_TYPES, t)
+    p = {"typ": typ, "doc": "the owner"}
+    if dflt and typ not in ("dict",):
+        p["default"] = {"int": 0, "str": "s", "Optional[str]": "s", "Literal['a', 'b']": "a", "Optional[int]": 0, "bool": False, "float": 0.5}[typ]
+    cols = [("id", {"typ": "int", "doc": "[PK] the id"})] if with_pk else []
+    return {"name": "Config", "doc": "Header line.", "type": "static", "params": OrderedDict(cols + [("owner", p), ("z", {"typ": "Optional[str]", "doc": "zed"})]), "returns": None}
+
+
+def _shared(f2):
+    def body(f1, t, dflt, with_pk):
+        """emitting into f2 from an interface description that was ALREADY emitted into f1 gives what a fresh copy gives; the description itself is unchanged"""
+        fm1 = _pick(HIST_FORMATS, f1)
+        ir, ref = _shared_ir(t, dflt, with_pk), _shared_ir(t, dflt, with_pk)
+        try:
+            fresh = _emit_only(f2, _shared_ir(t, dflt, with_pk))
+        except Exception:
+            return ""  # the later emitter rejects this interface anyway
+        try:
+            _emit_only(fm1, ir)
+        except Exception:
+            pass
+        if repr(ir) != repr(ref):
+            return "the %s emitter modified the interface description it was given: %r -> %r" % (fm1, dict(ref["params"]), dict(ir["params"]))
+        try:
+            after = _emit_only(f2, ir)
+        except Exception as e:
+            after = "raised %s" % type(e).__name__
+        if after != fresh:
+            return "%s emission differs when the same interface description was first emitted as %s" % (f2, fm1)
+        return ""
+
+    return body
+
+
+for _f2 in HIST_FORMATS:
+    ob("C10", "hist.shared_ir.%s" % _f2, {"f1": R(0, len(HIST_FORMATS) - 1), "t": R(0, len(SHARED_TYPES) - 1), "dflt": BOOL, "with_pk": BOOL}, T=900, tpath=60,
+       tier="quick" if _f2 in ("class", "json_schema", "sqlalchemy", "docstring") else "thorough",
+       funcs=["cdd.class_.emit.class_", "cdd.function.emit.function", "cdd.argparse_function.emit.argparse_function", "cdd.pydantic.emit.pydantic", "cdd.json_schema.emit.json_schema",
+              "cdd.docstring.emit.docstring", "cdd.sqlalchemy.emit.sqlalchemy", "cdd.sqlalchemy.emit.sqlalchemy_table", "cdd.sqlalchemy.emit.sqlalchemy_hybrid"],
+       bound="ONE interface description object (parameter of type among %r, default present/absent, with or without an explicit [PK] column) is emitted by ANY of the %d emitters and then "
+             "as %s (solver-enumerated): the description is unchanged by the first emitter and the second emission equals the emission from a fresh copy" % (SHARED_TYPES, len(HIST_FORMATS), _f2))(_shared(_f2))
